@@ -434,6 +434,32 @@ def run(ctx):
                  'to WAITING although it is %s: it is refreshed and started '
                  'again (join: one / join: N run once per late branch)'
                  % sorted(bad), ctx.loc(df, c))
+    # a deferred join is WAITING: that is the only state the refresh acts on
+    for n, c in cr:
+        st = U.kwarg(c, 'state')
+        r3.check(st is not None and sd.const_state(st) == S['WAITING'],
+                 ctx.construct(df, c, extra='created WAITING'),
+                 'the join execution is not created in state WAITING: the '
+                 'refresh that would start it only acts on WAITING tasks',
+                 ctx.loc(df, c))
+    for n, c in U.calls_in(cfg, 'set_state'):
+        r3.check(bool(c.args) and sd.const_state(c.args[0]) == S['WAITING'],
+                 ctx.construct(df, c, extra='deferred to WAITING'),
+                 'defer() moves the execution to a state other than WAITING',
+                 ctx.loc(df, c))
+    fast = [(d, sub) for d, sub in cfg.calls(
+        lambda x: U.call_name(x) == 'get_task_executions')
+        if not U.inside_with(cfg, d, 'named_lock')]
+    for d, sub in fast:
+        st = U.kwarg(sub, 'state')
+        r3.check(st is not None and sd.const_state(st) == S['WAITING'] and
+                 U.kwarg(sub, 'unique_key') is not None and
+                 U.kwarg(sub, 'workflow_execution_id') is not None,
+                 ctx.construct(df, sub, extra='fast path: WAITING only'),
+                 'the lock-free fast path accepts an execution that is not '
+                 'WAITING (or not this join of this workflow): a finished '
+                 'join of an earlier cycle iteration would swallow the new '
+                 'trigger', ctx.loc(df, sub))
     cn = prog.func(RT + '.create_new')
     cfg = ctx.cfg(cn)
     IN, keys = sd.analyze(cfg, cn, [('self.waiting', (False, True))])
